@@ -162,7 +162,8 @@ impl<B: IoBufMut> Framer<B> for LengthDelimited {
             u64::from_le_bytes(len_bytes)
         } as usize;
 
-        if buf.len() < self.length_field_len + len {
+        // `len` comes from the peer: `length_field_len + len` may overflow
+        if buf.len() - self.length_field_len < len {
             return Ok(None);
         }
 
